@@ -11,11 +11,14 @@
  */
 #define _GNU_SOURCE
 #include <dlfcn.h>
+#include <setjmp.h>
+#include <signal.h>
 #include <stdint.h>
 #include <stdio.h>
 #include <stdlib.h>
 #include <string.h>
 #include <sys/mman.h>
+#include <ucontext.h>
 
 #define MAXJOBS 8
 #define MAXREG 256
@@ -23,7 +26,7 @@
 #define POISON_BYTES (192 * 1024)
 
 enum { K_A = 1, K_INPUT = 2, K_STACK = 3, K_MOD_RO = 4, K_MOD_RW = 5 };
-enum { V_UNKNOWN = 1, V_FOREIGN = 2, V_STORE_RO = 3, V_MUTABLE_STATIC = 4, V_STEPCAP = 5 };
+enum { V_UNKNOWN = 1, V_FOREIGN = 2, V_STORE_RO = 3, V_MUTABLE_STATIC = 4, V_STEPCAP = 5, V_FAULT = 6 };
 enum { P_SEQ = 0, P_RANDOM = 1, P_RR = 2, P_PCT = 3 };
 
 typedef void (*kernel_fn)(void*, const void*, const void*, const void*, const int*, const uint8_t*, void*);
@@ -53,6 +56,8 @@ typedef struct {
   uint64_t probe_switch_on_A, probe_switch_on_stack, probe_switch_on_table, probe_switch_on_input;
   uint64_t probe_concurrent_inside, probe_resumed_after_two, probe_max_inside;
   uint64_t pc_guards;
+  uint64_t max_stack_used; /* deepest kernel stack access below the top of the job's stack */
+  int32_t fault_signal, pad;
 } sim_result;
 
 /* Minimal x86-64 context switch (callee-saved registers + mxcsr + x87 control word).  glibc's
@@ -82,6 +87,7 @@ typedef struct {
   uint64_t accesses;
   int prio;
   uint32_t ran_since; /* bitmask of jobs that ran since this one was descheduled */
+  uintptr_t min_stack;
 } job_t;
 
 static region_t regions[MAXREG];
@@ -144,6 +150,7 @@ static inline void on_access(uintptr_t addr, int size, int is_store, void* pc) {
   int akind = 0;
   if (addr >= j->stack_lo && addr + size <= j->stack_hi) {
     akind = K_STACK;
+    if (addr < j->min_stack) j->min_stack = addr;
   } else {
     const region_t* hit = 0;
     for (int i = 0; i < nregions; i++) {
@@ -222,6 +229,26 @@ void __sanitizer_cov_trace_pc_guard_init(uint32_t* start, uint32_t* stop) {
 void __sanitizer_cov_trace_pc_guard(uint32_t* guard) {
   (void)guard;
   if (cur >= 0 && res) res->pc_guards++;
+}
+
+/* A hardware fault inside a kernel (misaligned SIMD access, stack overflow into the guard page,
+ * wild pointer) is a finding about the kernel, not a crash of the harness: it is recorded and
+ * the batch is abandoned. */
+static sigjmp_buf batch_jmp;
+static volatile int batch_active;
+static char* alt_stack;
+
+static void on_fault(int sig, siginfo_t* si, void* uc_) {
+  if (!batch_active || cur < 0 || !res) {
+    signal(sig, SIG_DFL);
+    raise(sig);
+    return;
+  }
+  ucontext_t* uc = (ucontext_t*)uc_;
+  void* pc = (void*)(uintptr_t)uc->uc_mcontext.gregs[REG_RIP];
+  record(V_FAULT, (uintptr_t)si->si_addr, 0, 0, pc, 0);
+  res->fault_signal = sig;
+  siglongjmp(batch_jmp, 1);
 }
 
 static void tramp(int idx) {
@@ -314,6 +341,7 @@ int sim_run_batch(int n, const sim_job_desc* descs, int pol, uint64_t param, uin
     j->state = 0;
     j->accesses = 0;
     j->ran_since = 0;
+    j->min_stack = j->stack_hi;
     j->prio = (int)(rnd() % 1000) + 10;
     /* stack residue: a different pattern per (poison, job) */
     uint64_t pat = (poison + 0x9E3779B97F4A7C15ULL * (uint64_t)(k + 1)) | 0x0101010101010101ULL;
@@ -325,6 +353,27 @@ int sim_run_batch(int n, const sim_job_desc* descs, int pol, uint64_t param, uin
     init_ctx(j);
   }
   int remaining = n, last = -1;
+  struct sigaction sa, old_segv, old_bus, old_fpe, old_ill;
+  stack_t ss, old_ss;
+  if (!alt_stack) alt_stack = malloc(1 << 16);
+  ss.ss_sp = alt_stack;
+  ss.ss_size = 1 << 16;
+  ss.ss_flags = 0;
+  sigaltstack(&ss, &old_ss);
+  memset(&sa, 0, sizeof sa);
+  sa.sa_sigaction = on_fault;
+  sa.sa_flags = SA_SIGINFO | SA_ONSTACK | SA_NODEFER;
+  sigemptyset(&sa.sa_mask);
+  sigaction(SIGSEGV, &sa, &old_segv);
+  sigaction(SIGBUS, &sa, &old_bus);
+  sigaction(SIGFPE, &sa, &old_fpe);
+  sigaction(SIGILL, &sa, &old_ill);
+  batch_active = 1;
+  if (sigsetjmp(batch_jmp, 1)) {
+    /* a kernel faulted: abandon the batch (the coroutine stacks are re-initialised next time) */
+    remaining = 0;
+    cur = -1;
+  }
   while (remaining > 0) {
     int k = -1;
     if (pol == P_SEQ) {
@@ -373,7 +422,17 @@ int sim_run_batch(int n, const sim_job_desc* descs, int pol, uint64_t param, uin
     cur = -1;
     if (jobs[k].state == 2) remaining--;
   }
-  for (int k = 0; k < n; k++) res->per_job[k] = jobs[k].accesses;
+  batch_active = 0;
+  sigaction(SIGSEGV, &old_segv, 0);
+  sigaction(SIGBUS, &old_bus, 0);
+  sigaction(SIGFPE, &old_fpe, 0);
+  sigaction(SIGILL, &old_ill, 0);
+  sigaltstack(&old_ss, 0);
+  for (int k = 0; k < n; k++) {
+    res->per_job[k] = jobs[k].accesses;
+    uint64_t used = jobs[k].stack_hi - jobs[k].min_stack;
+    if (used > res->max_stack_used) res->max_stack_used = used;
+  }
   res = 0;
   return 0;
 }
